@@ -5,21 +5,26 @@ cd "$(dirname "$0")"
 export GOFLAGS=-mod=mod GOPROXY=off GOSUMDB=off GOTOOLCHAIN=local CGO_ENABLED=0
 mkdir -p .work .build evidence replays
 # Lean: every property module + every driver exe named in props/*.json
-TARGETS=$(python3 - <<'PY'
-import json,glob
+targets() { python3 - "$1" <<'PY'
+import json,glob,sys
+want = sys.argv[1] == 'claimed'
 t=[]
 for p in sorted(glob.glob('props/C*.json')):
-    c=json.load(open(p)); t+=c['lean_modules']+[c['driver']]
+    c=json.load(open(p))
+    if bool(c.get('claimed', True)) == want:
+        t+=c['lean_modules']+[c['driver']]
 print(' '.join(dict.fromkeys(t)))
 PY
-)
-(cd lean && lake build $TARGETS)
+}
+# claimed properties must build; properties still in progress are built best-effort (cache warm-up only)
+(cd lean && lake build $(targets claimed))
+U=$(targets unclaimed); [ -n "$U" ] && (cd lean && lake build $U) || true
 # Go: warm the build cache for every harness
 cp /repo/go.sum harness/go.sum 2>/dev/null || true
 for p in props/C*.json; do
   h=$(python3 -c "import json,sys; c=json.load(open('$p')); print(c['harness'], c.get('harness_tags','verif'))")
   set -- $h
-  (cd harness && go build -tags "$2" -o ../.build/$1 ./cmd/$1)
+  (cd harness && go build -tags "$2" -o ../.build/$1 ./cmd/$1) || { python3 -c "import json,sys; sys.exit(1 if json.load(open('$p')).get('claimed',True) else 0)" || exit 1; }
 done
 for d in translator/c*/; do [ -d "$d" ] && (cd translator && go build -o ../.build/translator-$(basename $d) ./$(basename $d)); done
 echo setup ok
